@@ -102,7 +102,12 @@ impl HistProfile {
     }
 }
 
-fn some_arg(t: &mut Tape) -> Arg {
+fn some_arg(t: &mut Tape, meta: &Meta) -> Arg {
+    // now and then the host passes on what it has just read from a global: the only way it
+    // gets hold of a list value (and of a divert target, which the engine must refuse)
+    if !meta.globals.is_empty() && t.chance(1, 6) {
+        return Arg::G(meta.globals[t.pick(meta.globals.len())].clone());
+    }
     match t.pick(5) {
         0 => Arg::I(t.range(0, 9)),
         1 => Arg::I([i32::MAX, i32::MIN, -1, 0, 7][t.pick(5)]),
@@ -165,7 +170,7 @@ pub fn decode_history(tape: &[u16], meta: &Meta, hp: &HistProfile) -> Vec<HostOp
                     let path = targets[t.pick(targets.len())].clone();
                     let reset = !t.chance(1, 3);
                     let nargs = t.pick(3).saturating_sub(1);
-                    let args = (0..nargs).map(|_| some_arg(&mut t)).collect();
+                    let args = (0..nargs).map(|_| some_arg(&mut t, meta)).collect();
                     HostOp::ChoosePath { path, reset, args }
                 }
             }
@@ -174,7 +179,7 @@ pub fn decode_history(tape: &[u16], meta: &Meta, hp: &HistProfile) -> Vec<HostOp
                     HostOp::Continue
                 } else {
                     let g = meta.globals[t.pick(meta.globals.len())].clone();
-                    HostOp::SetVar(g, some_arg(&mut t))
+                    HostOp::SetVar(g, some_arg(&mut t, meta))
                 }
             }
             9 => {
@@ -205,7 +210,7 @@ pub fn decode_history(tape: &[u16], meta: &Meta, hp: &HistProfile) -> Vec<HostOp
                         continue;
                     }
                     let nargs = t.pick(4);
-                    let args = (0..nargs).map(|_| some_arg(&mut t)).collect();
+                    let args = (0..nargs).map(|_| some_arg(&mut t, meta)).collect();
                     HostOp::Eval { func: name, args }
                 }
             }
